@@ -394,6 +394,12 @@ def run_one(spec, sched=None, line_points=False):
         # seeded random schedules also vary the order in which the kernel hands out pids
         spec["pid_style"] = ("asc", "desc", "wrap")[sd.get("seed", 0) % 3] if sd.get("kind") == "random" else "asc"
     k.pid_style = spec["pid_style"]
+    if "boot_ticks" not in spec:
+        sd = spec.get("sched", {})
+        # only where the property quantifies over TTIN / TTOU / HUP histories without promising generations (C03)
+        on = os.environ.get("VERIF_BOOT_SWALLOW") == "1" and sd.get("kind") == "random"
+        spec["boot_ticks"] = (0, 0, 2, 3)[(sd.get("seed", 0) // 3) % 4] if on else 0
+    k.boot_ticks = spec["boot_ticks"]
     k.all_tmps = []
     _CUR.update(kernel=k, settings=settings, hups=[], nreload=0, applied=None)
     os.environ.pop("GUNICORN_PID", None)
